@@ -108,3 +108,64 @@ Proof.
   - intros i [E|[]]. subst. simpl. lia.
   - vm_compute. discriminate.
 Qed.
+
+(* ---------- several contigs: the summed contingency tables are the genome-wide per-base counts ---------- *)
+Definition genome_ok_prop (g : list contig) : Prop :=
+  forall size a b, In (size, a, b) g -> 0 <= size /\ wf_set a size /\ wf_set b size.
+Lemma genome_count_cons f size a b g : genome_count f ((size, a, b) :: g) = count_bases (f a b) size + genome_count f g.
+Proof. reflexivity. Qed.
+Lemma genome_size_cons size a b g : genome_size ((size, a, b) :: g) = size + genome_size g.
+Proof. reflexivity. Qed.
+Lemma genome_table_counts g : genome_ok_prop g ->
+  genome_table g = Some (genome_count (fun a b x => covered a x && covered b x) g,
+                         genome_count (fun a b x => covered a x && negb (covered b x)) g,
+                         genome_count (fun a b x => negb (covered a x) && covered b x) g,
+                         genome_count (fun a b x => negb (covered a x) && negb (covered b x)) g).
+Proof.
+  induction g as [|[[size a] b] g IH]; intros H; [reflexivity|].
+  destruct (H size a b (or_introl eq_refl)) as [Hs [Ha Hb]].
+  cbn [genome_table]. rewrite (contingency_is_counts a b size Hs Ha Hb).
+  rewrite IH by (intros s' a' b' Hin; apply H; right; exact Hin). rewrite !genome_count_cons. reflexivity.
+Qed.
+Lemma genome_count_union g :
+  genome_count (fun a b x => covered a x && covered b x) g + genome_count (fun a b x => covered a x && negb (covered b x)) g
+  + genome_count (fun a b x => negb (covered a x) && covered b x) g = genome_count (fun a b x => covered a x || covered b x) g.
+Proof.
+  induction g as [|[[size a] b] g IH]; [reflexivity|]. rewrite !genome_count_cons. rewrite <- IH.
+  pose proof (cnt_union (covered a) (covered b) (bases size)) as H. cbv beta zeta in H. unfold count_bases. cbv beta. lia.
+Qed.
+Lemma genome_count_left g :
+  genome_count (fun a b x => covered a x && covered b x) g + genome_count (fun a b x => covered a x && negb (covered b x)) g
+  = genome_count (fun a b x => covered a x) g.
+Proof.
+  induction g as [|[[size a] b] g IH]; [reflexivity|]. rewrite !genome_count_cons. rewrite <- IH.
+  pose proof (cnt_split_l (covered a) (covered b) (bases size)) as H. cbv beta zeta in H. unfold count_bases. cbv beta. lia.
+Qed.
+Lemma genome_count_right g :
+  genome_count (fun a b x => covered a x && covered b x) g + genome_count (fun a b x => negb (covered a x) && covered b x) g
+  = genome_count (fun a b x => covered b x) g.
+Proof.
+  induction g as [|[[size a] b] g IH]; [reflexivity|]. rewrite !genome_count_cons. rewrite <- IH.
+  pose proof (cnt_split_r (covered a) (covered b) (bases size)) as H. cbv beta zeta in H. unfold count_bases. cbv beta. lia.
+Qed.
+Lemma genome_count_total g : (forall size a b, In (size, a, b) g -> 0 <= size) ->
+  genome_count (fun a b x => covered a x && covered b x) g + genome_count (fun a b x => covered a x && negb (covered b x)) g
+  + genome_count (fun a b x => negb (covered a x) && covered b x) g
+  + genome_count (fun a b x => negb (covered a x) && negb (covered b x)) g = genome_size g.
+Proof.
+  induction g as [|[[size a] b] g IH]; intros Hs; [reflexivity|]. rewrite !genome_count_cons, genome_size_cons.
+  rewrite <- IH by (intros s' a' b' Hin; apply (Hs s' a' b'); right; exact Hin).
+  pose proof (cnt_total (covered a) (covered b) (bases size)) as H. cbv zeta in H.
+  rewrite (len_bases size (Hs size a b (or_introl eq_refl))) in H. cbv beta in H. unfold count_bases. cbv beta. lia.
+Qed.
+Lemma jaccard_genome_is_per_base g : genome_ok_prop g -> jaccard_genome_model g = Ret (jaccard_genome_spec g).
+Proof.
+  intros H. unfold jaccard_genome_model. rewrite (genome_table_counts g H). unfold of_option, jaccard_genome_spec, m_jaccard_num, m_jaccard_den.
+  f_equal. f_equal. rewrite <- genome_count_union. lia.
+Qed.
+Lemma forbes_genome_is_per_base g : genome_ok_prop g -> forbes_genome_model g = Ret (forbes_genome_spec g).
+Proof.
+  intros H. unfold forbes_genome_model. rewrite (genome_table_counts g H). unfold of_option, forbes_genome_spec, m_forbes_num, m_forbes_den.
+  assert (Hs : forall size a b, In (size, a, b) g -> 0 <= size) by (intros s a b Hin; apply (H s a b Hin)).
+  rewrite (genome_count_total g Hs), genome_count_left, genome_count_right. reflexivity.
+Qed.
